@@ -1238,6 +1238,27 @@ func vfFRRSameStrings(a, b []string) bool {
 	return true
 }
 
+// vfFRRPeerLabelCollision: two sessions whose "<peer>[-<vrf>]" labels coincide (an interface name
+// that ends in "-<vrf of another peer with the interface name before the dash>"). Only used to
+// name the cause of a violation, never to decide one.
+func vfFRRPeerLabelCollision(prog *vfFRRProgram) bool {
+	seen := map[string]bool{}
+	for _, s := range prog.Sessions {
+		id := s.Addr
+		if s.Iface != "" {
+			id = s.Iface
+		}
+		if s.VRF != "" {
+			id += "-" + s.VRF
+		}
+		if seen[id] {
+			return true
+		}
+		seen[id] = true
+	}
+	return false
+}
+
 // vfFRRExcerpt keeps violation details small.
 func vfFRRExcerpt(text string) string {
 	if len(text) > 12000 {
